@@ -205,6 +205,21 @@ func bundledRoundTrip(tier string) *Outcome {
 			vl = append(vl, Violation{Clause: v.Clause, Detail: fmt.Sprintf("[bundled file %s] %s", f, v.Detail)})
 		}
 	}
+	// small documents: a plain process (no extension data on any flow node) plus ONE feature that stands alone in its
+	// document - what a serialiser does "only when the document needs it" shows here
+	for _, sd := range smallDocuments() {
+		a, err := schema.Parse([]byte(sd.xml))
+		if err != nil {
+			vl = append(vl, Violation{Clause: "C15/harness", Detail: fmt.Sprintf("small document %q does not parse: %v", sd.name, err)})
+			continue
+		}
+		st := &rtState{}
+		roundTrip(sd.xml, a, st)
+		for _, v := range st.vl.v {
+			vl = append(vl, Violation{Clause: v.Clause, Detail: fmt.Sprintf("[small document with nothing but %s] %s", sd.name, v.Detail)})
+		}
+		o.Probes["small-documents-round-tripped"]++
+	}
 	o.Probes["bundled-files-round-tripped"] = parsed
 	if parsed == 0 {
 		vl = append(vl, Violation{Clause: "C15/harness", Detail: "no bundled .bpmn file found in the scratch copy"})
@@ -237,4 +252,40 @@ func diffKind(s string) string {
 
 func init() {
 	Props["C15"] = &Scenario{Gen: genC15, Check: checkC15, MaxSteps: 120000, Once: bundledRoundTrip}
+}
+
+type smallDoc struct{ name, xml string }
+
+// smallDocuments: start -> task -> end without any extension element on a flow node, plus one lonely feature.
+func smallDocuments() []smallDoc {
+	head := `<?xml version="1.0" encoding="UTF-8"?>
+<bpmn:definitions xmlns:bpmn="http://www.omg.org/spec/BPMN/20100524/MODEL" xmlns:olive="http://olive.io/spec/BPMN/MODEL" xmlns:bpmndi="http://www.omg.org/spec/BPMN/20100524/DI" xmlns:dc="http://www.omg.org/spec/DD/20100524/DC" xmlns:di="http://www.omg.org/spec/DD/20100524/DI" xmlns:xsi="http://www.w3.org/2001/XMLSchema-instance" id="Defs" targetNamespace="http://bpmn.io/schema/bpmn">
+`
+	body := func(procExt, extra, after string) string {
+		return head + `  <bpmn:process id="P1" isExecutable="true">
+` + procExt + `    <bpmn:startEvent id="S"><bpmn:outgoing>f1</bpmn:outgoing></bpmn:startEvent>
+    <bpmn:task id="T"><bpmn:incoming>f1</bpmn:incoming><bpmn:outgoing>f2</bpmn:outgoing></bpmn:task>
+    <bpmn:endEvent id="E"><bpmn:incoming>f2</bpmn:incoming></bpmn:endEvent>
+` + extra + `    <bpmn:sequenceFlow id="f1" sourceRef="S" targetRef="T"/>
+    <bpmn:sequenceFlow id="f2" sourceRef="T" targetRef="E"/>
+  </bpmn:process>
+` + after + `</bpmn:definitions>
+`
+	}
+	return []smallDoc{
+		{"a plain process", body("", "", "")},
+		{"a data object with an olive:dataObjectBody", body("", `    <bpmn:dataObject id="DO" name="DO"><bpmn:extensionElements><olive:dataObjectBody>{"k": [1, 2]}</olive:dataObjectBody></bpmn:extensionElements></bpmn:dataObject>
+`, "")},
+		{"olive:properties on the process element", body(`    <bpmn:extensionElements><olive:properties><olive:property name="p" value="v" type="string"/></olive:properties></bpmn:extensionElements>
+`, "", "")},
+		{"olive:taskHeaders on the process element", body(`    <bpmn:extensionElements><olive:taskHeaders><olive:header name="h" value="1" type="integer"/></olive:taskHeaders></bpmn:extensionElements>
+`, "", "")},
+		{"a diagram", body("", "", `  <bpmndi:BPMNDiagram id="D1"><bpmndi:BPMNPlane id="Pl1" bpmnElement="P1"><bpmndi:BPMNShape id="T_di" bpmnElement="T"><dc:Bounds x="10" y="20" width="100" height="80"/></bpmndi:BPMNShape><bpmndi:BPMNEdge id="f1_di" bpmnElement="f1"><di:waypoint x="1" y="2"/><di:waypoint x="3" y="4"/></bpmndi:BPMNEdge></bpmndi:BPMNPlane></bpmndi:BPMNDiagram>
+`)},
+		{"a formal condition (xsi:type) on the only sequence flow that has one", strings.Replace(body("", "", ""), `<bpmn:sequenceFlow id="f2" sourceRef="T" targetRef="E"/>`, `<bpmn:sequenceFlow id="f2" sourceRef="T" targetRef="E"><bpmn:conditionExpression xsi:type="bpmn:tFormalExpression" language="https://github.com/expr-lang/expr">1 == 1</bpmn:conditionExpression></bpmn:sequenceFlow>`, 1)},
+		{"signal, message and error root elements", body("", "", `  <bpmn:signal id="sg" name="sig name"/>
+  <bpmn:message id="ms" name="msg name"/>
+  <bpmn:error id="er" name="err name" errorCode="E42"/>
+`)},
+	}
 }
